@@ -93,6 +93,16 @@ Definition json_resources (s : Resources.rsec) : res json :=
   | Fault x => Fault x
   end.
 
+(* mod.rs:591 Serialize for Directory: Walk { dir, budget: fsck_budget(resources), depth: 0, toplevel: false } *)
+Definition json_directory (s : Resources.rsec) (off : N) : res json :=
+  w <- jwalk JRES_DEPTH s off false (Resources.fsck_budget s) ;; Ok (JArr (fst w)).
+(* mod.rs:605 Serialize for DirectoryEntry: WalkEntry { entry, budget: fsck_budget(resources), depth: 0, toplevel: false }:
+   the entry itself is not counted against the budget (take_while sits in Walk), a sub-directory is the Walk of depth 1 *)
+Definition json_dir_entry (s : Resources.rsec) (e : N) : res json :=
+  w <- jwalk_loop s (match JRES_DEPTH with O => None | S d' => Some (fun o b' => jwalk d' s o false b') end) false [e]
+         (Resources.fsck_budget s + 1) ;;
+  match fst w with j :: _ => Ok j | [] => Ok JNull end.
+
 (* pe.rs:564 Pe::resources on a file or a mapped view *)
 Definition acc_resources (f : fmt) (file : bool) (m : mem) : res Resources.rsec :=
   d <- dir_entry f m IMAGE_DIRECTORY_ENTRY_RESOURCE ;;
